@@ -109,7 +109,7 @@ theorem join_inv {h : Hub} (hi : Inv h) {s : Nat} {x : Sess} (hx : h.sess s = so
     intro rm hrm hm
     obtain ⟨y, hy, _, hyr⟩ := hi.mem_room _ _ _ _ hrm hm
     rw [hx] at hy; cases hy; rw [hr] at hyr; cases hyr
-  obtain ⟨f1, f2, f3, f4, f5, f6, f7, f8, f9, f10, f11, f12, f13, f14, f15, f16, f17, f18, f19, f20, f21, f22, f23, f24⟩ := hi
+  obtain ⟨f1, f2, f3, f4, f5, f6, f7, f8, f9, f10, f11, f12, f13, f14, f15, f16, f17, f18, f19, f20, f21, f22, f23, f24, f25⟩ := hi
   have nm := newRoom_members (joinTables h s x r rsid perms) x.backend r s su
   have nic := newRoom_inCall (joinTables h s x r rsid perms) x.backend r s su
   have nnd := newRoom_nodup (joinTables h s x r rsid perms) x.backend r s su
@@ -125,11 +125,11 @@ theorem join_inv {h : Hub} (hi : Inv h) {s : Nat} {x : Sess} (hx : h.sess s = so
   by_cases hrs : rsid = ""
   · simp only [hrs, ne_eq, not_true_eq_false, if_false]
     constructor
-    all_goals (intros; simp only [hubf] at *; grind [mem_removeL, nodup_removeL])
+    all_goals (intros; simp only [hubf] at *; grind [mem_removeL, nodup_removeL, length_removeL_le])
   · simp only [hrs, ne_eq, not_false_eq_true, if_true]
     constructor
     all_goals (intros; simp only [hubf, rsSet_sid2rs _ _ _ hrs, rsSet_rs2sid _ _ _ hrs] at *;
-               grind [mem_removeL, nodup_removeL])
+               grind [mem_removeL, nodup_removeL, length_removeL_le])
 
 end SigModel.Hub
 
@@ -243,7 +243,7 @@ theorem pub_ne_empty (s : Nat) : pubRs s ≠ "" := by
 
 theorem anonAdd_inv {h : Hub} (hi : Inv h) (s : Nat) (hs : (h.sess s).isSome = true) :
     Inv { h with anon := removeL h.anon s ++ [s] } := by
-  obtain ⟨f1, f2, f3, f4, f5, f6, f7, f8, f9, f10, f11, f12, f13, f14, f15, f16, f17, f18, f19, f20, f21, f22, f23, f24⟩ := hi
+  obtain ⟨f1, f2, f3, f4, f5, f6, f7, f8, f9, f10, f11, f12, f13, f14, f15, f16, f17, f18, f19, f20, f21, f22, f23, f24, f25⟩ := hi
   constructor
   all_goals first | assumption | skip
   · intro t ht; simp at ht; grind [mem_removeL]
@@ -251,7 +251,7 @@ theorem anonAdd_inv {h : Hub} (hi : Inv h) (s : Nat) (hs : (h.sess s).isSome = t
 theorem rsUpdate_inv {h : Hub} (hi : Inv h) {s : Nat} {x : Sess} (hx : h.sess s = some x)
     (hr : x.room.isSome = true) (rs : String) (hrs : rs ≠ "") :
     Inv (setSess (rsSet h s rs) s (some { x with roomSess := rs })) := by
-  obtain ⟨f1, f2, f3, f4, f5, f6, f7, f8, f9, f10, f11, f12, f13, f14, f15, f16, f17, f18, f19, f20, f21, f22, f23, f24⟩ := hi
+  obtain ⟨f1, f2, f3, f4, f5, f6, f7, f8, f9, f10, f11, f12, f13, f14, f15, f16, f17, f18, f19, f20, f21, f22, f23, f24, f25⟩ := hi
   constructor
   all_goals (intros; simp only [hubf, rsSet_sid2rs _ _ _ hrs, rsSet_rs2sid _ _ _ hrs] at *; grind)
 
